@@ -11,7 +11,11 @@ def run(ctx):
     # all viable strings of <= 17 tokens over a reduced alphabet: long enough for a nested block followed by a dotted
     # path into it (the same flattened key spelled on two nesting levels)
     r3 = ctx.tlc("ExprParser", "MC_ExprParser_small", timeout=1500)
-    cases = r1.emitted + rs.emitted + r3.emitted
+    # directed runs of the same machine: nesting up to 7 with dotted paths of up to 4 segments at every level
+    r4 = ctx.tlc("ExprChain", "MC_ExprChain", timeout=600, workers=4)
+    if len(r4.emitted) < 80:
+        raise vf.Infra("ExprChain emitted %d of its target strings" % len(r4.emitted))
+    cases = r1.emitted + rs.emitted + r3.emitted + r4.emitted
     if not r1.emitted or not rs.emitted:
         raise vf.Infra("ExprParser emitted nothing")
     res = ctx.vh_sharded("exprparse", cases, extra=["--variants", "3" if thorough else "2",
@@ -22,7 +26,8 @@ def run(ctx):
                 "admissible and every inadmissible token, plus its truncation at end of input) over {IDENT x4, STRING, INTEGER x2, "
                 "FLOAT, 7 punctuation tokens}, nesting <= %d, enumerated by TLC with verdict and flattened assignments; plus %d "
                 "simulated viable strings up to 40 tokens / nesting 6, and all viable strings of <= 17 tokens over a reduced alphabet "
-                "(one field name, one type, integers: keys spelled on two nesting levels); tokens concretised with sign/hex integers, all float forms, "
+                "(one field name, one type, integers: keys spelled on two nesting levels), and 84 directed runs of the machine along "
+                "expressions nested up to 7 deep through dotted paths (ExprChain.tla); tokens concretised with sign/hex integers, all float forms, "
                 "string literals with every admitted escape, raw line breaks and non-ASCII, arbitrary spacing; expr.Parse must "
                 "return exactly the map (later assignment wins) or an error and no map; %s random / mutated / deeply nested inputs "
                 "up to 64 KiB for totality.  Non-trivial = distinct (verdict, token kind sequence)." % (
